@@ -156,3 +156,52 @@ pub fn exact_canary() {
     std::mem::forget(m);
     assert!(r.is_none());
 }
+
+// ----------------------------------------------------------------------------------------------
+// concrete-needle variants (cheap: every needle-dependent branch is decided during symbolic
+// execution; the haystack stays fully symbolic).  They complement the partitioned obligations
+// above, whose letter-free-prefix cases take 5-10 minutes each.
+// ----------------------------------------------------------------------------------------------
+fn concrete_needle(id: u8) -> (&'static [u8], bool) {
+    match id {
+        0 => (b"--a", true),  // first letter at index 2 (the `Some(len)` arm), ignore_case
+        1 => (b"a-a", false), // self-overlapping needle, case sensitive (literal search path)
+        2 => (b"-a", true),   // first letter at index 1
+        3 => (b"ab", true),   // starts with a letter
+        _ => (b"--", true),   // no letter at all
+    }
+}
+
+pub fn sub_ascii_concrete_needle<const H: usize, const ID: u8, const K: u8>() {
+    let hay: [u8; H] = kani::any();
+    kani::assume(all_ascii(&hay));
+    let (needle, ic) = concrete_needle(ID);
+    let (mut cfg, kind) = base_config(K);
+    cfg.ignore_case = ic;
+    cfg.normalize = kani::any();
+    let mut m = small_matcher(cfg.clone(), 8);
+    let p0: u32 = kani::any();
+    let mut idx = Vec::with_capacity(8);
+    idx.push(p0);
+    let r = m.substring_match_ascii::<true>(&hay, needle, &mut idx);
+    let h = ascii(&hay);
+    let n = ascii(needle);
+    let best = spec_best_occurrence(h, n, &cfg, kind);
+    assert!(r.is_some() == best.is_some(), "substring matching succeeds exactly when the needle occurs contiguously in the normalised haystack");
+    assert!(idx[0] == p0, "earlier content of the indices vector is untouched");
+    match r {
+        None => assert!(idx.len() == 1, "a failed match appends nothing"),
+        Some(s) => {
+            assert!(idx.len() == 1 + needle.len(), "exactly one index per needle character is appended");
+            assert!(Some(idx[1] as usize) == best, "reports the leftmost occurrence whose first character earns the highest bonus");
+            let mut k = 1;
+            while k < needle.len() {
+                assert!(idx[1 + k] == idx[1] + k as u32, "substring indices are contiguous");
+                k += 1;
+            }
+            assert!(s as u32 == spec_score(h, &cfg, kind, &idx[1..]), "score == fzf scheme on the reported alignment");
+        }
+    }
+    kani::cover!(r.is_some());
+    std::mem::forget(m);
+}
